@@ -3,5 +3,6 @@ CONSTANTS
   Keys = {"R-C1", "G-C1", "G-C2"}
   MaxEnv = 4
   AsCodedScan = TRUE
+  AsCodedSubscribe = FALSE
 INVARIANTS TypeOK
 PROPERTIES Quiesce
